@@ -370,6 +370,19 @@ def var_const_values(t):
     return vals or None
 
 
+def _is_boolish(t):
+    if t[0] == "un" and t[1] == "Not":
+        return True
+    if t[0] == "bin" and t[1] in ("Eq", "Ne", "Lt", "Le", "Gt", "Ge"):
+        return True
+    if t[0] == "call" and (t[3] or {}).get("krate") in ("core", "std", "alloc", "bytes"):
+        nm = str((t[3] or {}).get("name") or "")
+        if nm == "from" and len(t[2]) == 1:
+            return _is_boolish(strip_deep(t[2][0]))
+        return nm.startswith(("is_", "ends_with", "starts_with", "contains"))
+    return False
+
+
 def len_leaves(t, acc):
     """Decompose a usize sum into (number of length-like leaves, constant part); None if something else occurs."""
     t = peel(t)
@@ -392,7 +405,17 @@ def len_leaves(t, acc):
         return len_leaves(t[1][2], acc) and len_leaves(t[1][3], acc)
     if k == "bin" and t[1] == "Add":
         return len_leaves(t[2], acc) and len_leaves(t[3], acc)
+    if k in ("un", "bin", "call") and _is_boolish(t):
+        acc[1] += 1                       # a condition converted to an integer (`usize::from(cond)`, `cond as usize`)
+        return True
     if k == "cast":
+        inner = peel(t[1])
+        # `cond as usize` is 0 or 1
+        if (inner[0] == "un" and inner[1] == "Not") or (inner[0] == "bin" and inner[1] in ("Eq", "Ne", "Lt", "Le", "Gt", "Ge")) or \
+                (inner[0] == "call" and str((inner[3] or {}).get("name") or "").startswith(("is_", "ends_with", "starts_with", "contains"))
+                 and (inner[3] or {}).get("krate") in ("core", "std", "alloc", "bytes")):
+            acc[1] += 1
+            return True
         return len_leaves(t[1], acc)
     # the index inside `Some(i)` returned by find / rfind / position
     if k == "field" and t[2] in ("0", 0) and t[1][0] == "variant" and t[1][2] == "Some":
@@ -432,10 +455,20 @@ def rule_len_arith(site):
 
 
 def find_of(t):
-    """(base term rendered, pattern const) if t is the index found by str/slice find on base."""
+    """(base term rendered, pattern const) if t is the index found by str/slice find on base, or by
+    `base.iter().position(pred)` (an element index of the slice: pattern constant 0, any `+ 1` stays within)."""
     t = peel(t)
-    if t[0] == "call" and (t[3] or {}).get("name") in ("find", "rfind") and len(t[2]) == 2:
+    if t[0] == "call" and (t[3] or {}).get("name") in ("find", "rfind") and len(t[2]) == 2 and \
+            (t[3] or {}).get("trait") != "std::iter::Iterator":
         return render(strip_deep(t[2][0])), const_eval(t[2][1])
+    if t[0] == "call" and (t[3] or {}).get("name") in ("position", "rposition") and len(t[2]) == 2 and \
+            (t[3] or {}).get("trait") == "std::iter::Iterator":
+        it = strip_deep(t[2][0])
+        if it[0] == "mvar":                         # `iter⟵<what it was created from>`; slice::iter is transparent
+            src = strip_deep(it[3])
+            if src[0] == "call" and (src[3] or {}).get("name") == "iter" and len(src[2]) == 1:
+                src = strip_deep(src[2][0])
+            return render(src), 0
     return None
 
 
@@ -463,6 +496,10 @@ def find_split_ok(base, rng):
 
     def at(t, need_plus):
         if need_plus is None:
+            tl = peel(t)
+            if (tl[0] == "len" and render(strip_deep(tl[1])) == b) or \
+                    (tl[0] == "call" and (tl[3] or {}).get("name") == "len" and len(tl[2]) == 1 and render(strip_deep(tl[2][0])) == b):
+                return True               # `s[s.len()..]` / `s[..s.len()]`: the bound may equal the length
             fo = find_of(t)
             if fo and fo[0] == b:
                 return True
@@ -486,6 +523,13 @@ def find_split_ok(base, rng):
 def rule_find_split(f, site, depth=0):
     """P0-split: `s[..i]` / `s[i+1..]` with i = s.find(sep); also through the parameters of a private helper when
     every caller passes such a pair."""
+    if site.kind == "assert:BoundsCheck" and len(site.ops) == 2:
+        # `s[i]` with i the position of an element of s
+        ln = strip_deep(site.ops[0])
+        fo = find_of(site.ops[1])
+        if ln[0] == "len" and fo and fo[0] == render(strip_deep(ln[1])):
+            return "indexes the slice at a position Iterator::position / find returned for the same slice"
+        return None
     if site.kind not in ("call:index", "call:index_mut") or len(site.ops) != 2:
         return None
     r = find_split_ok(site.ops[0], site.ops[1])
@@ -941,6 +985,8 @@ def alloc_arg_ok(t):
         return True
     if k == "var" and var_const_values(t) is not None:
         return True
+    if k in ("un", "bin", "call") and _is_boolish(t):
+        return True
     if k == "cast":
         return alloc_arg_ok(t[1])
     if k == "field" and t[2] in ("0", "1") and t[1][0] == "bin":
@@ -1043,6 +1089,152 @@ def rule_windows(f, site):
     return None
 
 
+def rule_nonempty(f, site):
+    """P0-nonempty: `s[0]` / `s[1..]` where `s` is known to be non-empty by an inductive argument over the definitions
+    of the local: after every definition of `s` from which the use can be reached, either a test `!s.is_empty()` (any
+    spelling) lies on every path to the use, or the value assigned was itself tested non-empty before the assignment
+    (`let tail = &s[1..]; if tail.is_empty() { return } s = tail;`)."""
+    b = site.body
+    base = None
+    if site.kind == "assert:BoundsCheck" and len(site.ops) == 2 and const_eval(site.ops[1]) == 0:
+        ln = strip_deep(site.ops[0])
+        if ln[0] == "len":
+            base = strip_deep(ln[1])
+    elif site.kind == "call:index" and len(site.ops) == 2:
+        rng = site.ops[1]
+        if rng[0] == "agg" and rng[2] == "RangeFrom" and const_eval(dict(rng[3]).get("start")) == 1:
+            base = strip_deep(site.ops[0])
+    if base is None:
+        return None
+    sy = K.sym_of(b)
+
+    def nonempty_rx(text):
+        bt = re.escape(text)
+        pre = r"(slice::|str::|Vec::|Bytes::)?"
+        return re.compile(r"^(!(slice|str|Vec|Bytes)::is_empty\(%s\)|0 != %slen\(%s\)|%slen\(%s\) != 0|0 < %slen\(%s\)|1 <= %slen\(%s\))$"
+                          % (bt, pre, bt, pre, bt, pre, bt, pre, bt))
+
+    def tests(rx):
+        """[(switch block, block entered when the literal holds)] for bool switches testing a literal matching rx."""
+        out = []
+        for sb in range(len(b.blocks)):
+            t = b.term(sb)
+            if t["t"] != "switch" or t.get("dty") != "bool" or b.is_cleanup(sb):
+                continue
+            edges = b.switch_edges(sb)
+            for v, tb in edges:
+                val = "1" if v is None else str(v)
+                lit = K.canon_literal(b, sy.operand(t["discr"]), "bool", [val], len(edges))
+                if rx.match(lit):
+                    out.append((sb, tb, [x for _, x in edges if x != tb]))
+        return out
+    with K.keeping_local_names():
+        me = nonempty_rx(K.alpha(render(base), b))
+        my_tests = tests(me)
+
+        def guarded_from(start):
+            """Is the use unreachable from `start` once the failing edges of the non-empty tests are cut and the tests
+            themselves must be passed?  (every path start → use crosses a test on its passing edge)"""
+            if not my_tests:
+                return False
+            # every path start → use meets a test block (A), and the use cannot be reached from a failing edge of a
+            # test without meeting a test again (B): so the last test met before the use was passed
+            tb_ = [sb for sb, _, _ in my_tests]
+            a_ = site.bb not in b.reachable(start, removed_blocks=tb_)
+            b_ = all(fb != site.bb and site.bb not in b.reachable(fb, removed_blocks=tb_) for _, _, fbs in my_tests for fb in fbs)
+            return a_ and b_
+        if not (base[0] == "var" and len(base) > 2 and isinstance(base[2], int)):
+            # not a re-assigned local: a dominating test suffices
+            dom = b.dominators().get(site.bb, ())
+            for sb, tb, _ in my_tests:
+                if sb in dom and sb != site.bb and (site.bb == tb or site.bb in b.reachable(tb, removed_blocks=[sb])) \
+                        and all(site.bb not in b.reachable(fb, removed_blocks=[sb]) for fb in _):
+                    return "dominated by a test that the slice is not empty"
+            return None
+        defs = b.defs().get(base[2], [])
+        if not defs:
+            return None
+        for d in defs:
+            if d[2] not in ("assign", "call"):
+                return None
+            dbb = d[0]
+            if dbb != site.bb and site.bb not in b.reachable(dbb):
+                continue
+            # (a) a test after the definition on every path to the use
+            succs = b.succs(dbb) if dbb != site.bb else []
+            if dbb != site.bb and all(guarded_from(x) or x in [sb for sb, _, _ in my_tests] for x in succs):
+                continue
+            # (b) the assigned value was tested before the assignment
+            if d[2] == "assign":
+                val = K.alpha(render(strip_deep(sy.rvalue(d[3]["rv"]))), b)
+                vt = tests(nonempty_rx(val))
+                dom = b.dominators().get(dbb, ())
+                if any(sb in dom and (dbb == tb or dbb in b.reachable(tb, removed_blocks=[sb]))
+                       and all(dbb not in b.reachable(fb, removed_blocks=[sb]) for fb in fbs) for sb, tb, fbs in vt):
+                    continue
+            return None
+        return "every definition of the slice local is followed by, or made under, a test that it is not empty"
+
+
+# io::Error values the crate builds itself on a writer path, reviewed: (function regex, why it cannot happen when the
+# sink is a Vec<u8>)
+WRITER_ERROR_SOURCES_REVIEWED = [
+    (r"^<T as xml::encode::Text>::write_escaped$",
+     "`formatter error` is returned only if a Display impl fails although the sink did not; the crate's Display impls "
+     "only forward the formatter's own errors"),
+]
+_CG = {}
+
+
+def rule_vec_writer(f, site):
+    """P0-vecwriter: `unwrap()` of `x.write_…(&mut Vec::new())` where the callee returns `Result<(), io::Error>`, and
+    nothing reachable from it builds an io::Error of its own or performs I/O other than `io::Write` calls: every error
+    then originates from the sink, and `impl io::Write for Vec<u8>` never fails."""
+    if site.kind not in ("call:unwrap", "call:expect") or not site.ops:
+        return None
+    t = peel(site.ops[0])
+    if t[0] != "call" or t[1] not in f.fns:
+        return None
+    g = t[1]
+    out_ty = f.fns[g].get("output") or ""
+    if not re.match(r"^std::result::Result<\(\), std::io::Error>$", out_ty):
+        return None
+    if not any(re.match(r"^\w*⟵(Vec::new\(\)|Vec::with_capacity\(.*\)|vec::from_elem\(.*\))$", render(strip_deep(a))) for a in t[2]):
+        return None
+    cg = _CG.get(id(f))
+    if cg is None or cg[0] is not f:
+        cg = (f, CallGraph(f))
+        _CG[id(f)] = cg
+    reach, _ = callback_closure(f, cg[1], [g])
+    bad = []
+    for n in sorted(reach):
+        b = f.body(n)
+        if b is None:
+            continue
+        reviewed = any(re.search(rx, n) for rx, _ in WRITER_ERROR_SOURCES_REVIEWED)
+        for c in b.calls():
+            if b.is_cleanup(c.bb):
+                continue
+            res = c.res or ""
+            fnname = c.name or ""
+            if re.search(r"(^|::)io::(error::)?Error::(new|other|from_raw_os_error|last_os_error)$", res) or \
+                    re.search(r"as std::convert::From<.*>>::from$", res) and "io::Error" in res or \
+                    (fnname in ("into", "from") and "io::Error" in ((c.k or {}).get("ty") or "").rsplit("->", 1)[-1]):
+                if not reviewed:
+                    bad.append("%s builds an io::Error (%s)" % (short(n), short(res)))
+            elif c.krate not in (None, "rpki") and "io::Error" in ((c.k or {}).get("ty") or "").rsplit("->", 1)[-1]:
+                tr = c.trait or ""
+                plumbing = tr.endswith("ops::Try") or tr.endswith("ops::FromResidual") or \
+                    re.match(r"^(std|core)::(result::Result|option::Option)::<", c.fn or "") is not None or \
+                    tr.endswith("ops::FnOnce") or tr.endswith("ops::FnMut") or tr.endswith("ops::Fn") or tr.endswith("convert::Into") and False
+                if not (plumbing or tr.endswith("io::Write") or tr.endswith("fmt::Write") or fnname in ("write_fmt",)):
+                    bad.append("%s performs other I/O (%s)" % (short(n), short(res)))
+    if bad:
+        return None
+    return ("%s returns Result<(), io::Error>, writes into a fresh Vec<u8> (whose io::Write never fails) and nothing among the "
+            "%d functions it can reach builds an io::Error or does other I/O" % (short(g), len(reach)))
+
+
 RULES = [("P0-const", lambda f, s, env: rule_const(s)),
          ("P0-arg", lambda f, s, env: rule_arg_const(s)),
          ("P0-len", lambda f, s, env: rule_len_arith(s)),
@@ -1050,6 +1242,8 @@ RULES = [("P0-const", lambda f, s, env: rule_const(s)),
          ("P0-split", lambda f, s, env: rule_find_split(f, s)),
          ("P0-prefix", lambda f, s, env: rule_prefix_index(f, s)),
          ("P0-windows", lambda f, s, env: rule_windows(f, s)),
+         ("P0-nonempty", lambda f, s, env: rule_nonempty(f, s)),
+         ("P0-vecwriter", lambda f, s, env: rule_vec_writer(f, s)),
          ("P1-redecode", lambda f, s, env: rule_redecode(f, s, env["ber"], env["memo"])),
          ("P0-absint", lambda f, s, env: rule_absint(f, s))]
 
